@@ -12,6 +12,16 @@ CHECKS = {
     'C02': dict(ref='DESIGN.md §2 C02', technique='table extraction from builtins.py, comparison normalisation, reaching definitions',
                 text='Partial: lexical-guard table, boolean codec, facet validator directions, normalisation-before-test and '
                      'facets-on-decoded-value are decided on every path/entry; equality with the XSD value spaces is not.', note=NOTE),
+    'C03': dict(ref='DESIGN.md §2 C03', technique='CFG definite assignment, must-pass-through, control-dependence path conditions',
+                text='Partial: an undeclared attribute is never silently accepted or validated with a stale declaration, required and '
+                     'prohibited uses are reported, defaults/fixed/fill-missing obey their switches — on every path of '
+                     'XsdAttributeGroup.raw_decode. The verdict over the product of uses x namespaces x wildcards is not decided.', note=NOTE),
+    'C04': dict(ref='DESIGN.md §2 C04', technique='interval analysis of exit status, reaching definitions of the validation mode, '
+                                                    'parameter-forwarding check on wrapper pairs, CFG must-pass-through',
+                text='Partial: exit status faithful to the error count, one validation mode flows to every report and recursive call, '
+                     'wrappers forward every parameter and their verdict depends on the iterator only, every completing path of the '
+                     'drivers runs the document-wide reference check. Equality of verdicts over all documents/sources is not decided.',
+                note=NOTE),
 }
 NOT_APPLICABLE = {
     'C06': 'equivalence of lazy and eager traversals quantifies over runtime chunkings of runtime trees; no structural necessary '
@@ -21,6 +31,6 @@ NOT_APPLICABLE = {
     'C16': 'set semantics of hand-written case splits over namespace constraints can only be decided by evaluating them over the '
            'enumerated domain (execution); shape rules are blind to the defect quoted in the property',
 }
-for _p in ('C03', 'C04', 'C05', 'C07', 'C08', 'C09', 'C10', 'C11', 'C12', 'C13', 'C14', 'C17', 'C18', 'C19', 'C20'):
+for _p in ('C05', 'C07', 'C08', 'C09', 'C10', 'C11', 'C12', 'C13', 'C14', 'C17', 'C18', 'C19', 'C20'):
     NOT_APPLICABLE.setdefault(_p, PENDING)
-FIX_COMMITS = []
+FIX_COMMITS = ['0d39fae', 'ee7fbf0']
